@@ -13,7 +13,7 @@ func init() {
 	register(&Property{
 		ID:    "C14",
 		Rules: []string{"C14-R1", "C14-R2", "C14-R3", "C14-R4", "C14-R5", "C14-R6", "C06-R7", "C07-R6", "C14-R7", "C06-R2"},
-		Explain: "C14-R1 one date layout governs parsing and printing of log days: every layout operand of time.Parse and Time.Format in the tree derives (field-based value flow) from the date-format flag, the configuration file and the default; the only constant-only layout is the ISO layout of CSV rows, and no flag other than date-format feeds a layout; " +
+		Explain: "C14-R1 one date layout governs parsing and printing of log days: every layout operand of time.Parse and Time.Format in the tree derives (field-based value flow) from the date-format flag, the configuration file and the default; the only constant-only layout is the ISO layout of CSV rows, and no flag other than date-format feeds a layout; what is parsed as a record's date is its heading as it stands; " +
 			"C14-R2 what the printer writes the parser strips: the constant formats of PrintReporter.Process are split into literal runs and verbs and compared with the tokenizer's own trim sets and splitter (heading, entry, note and terminator lines); C14-R3 notes print the parsed pair untransformed; C14-R4 duplicates of a day are merged by name (existing name: += on its own slot, new name: appended); " +
 			"C14-R5 every printf format of package print is built from constants (a note or a name is an argument, never part of the format); C14-R6 when Options.Load succeeds the reporters' date layout equals the layout the log is parsed with as it stands at the end of Load (the copy is not taken before --date-format is applied); C06-R7 (shared) nothing converts a heading's date to the process time zone between reading and printing. Shared: C07-R6 the loops over the day's entries and notes are left only at the head or with an error. A line written with Fprintln of concatenated pieces is judged as the format the pieces spell. C14-R7 the reporter section of print's configuration is the loaded one; C06-R2 (shared) every selected record reaches the printer.",
 		NotDecided: "byte-for-byte idempotence, rounding to two decimals, names that end in characters of the trim sets",
